@@ -22,6 +22,7 @@ EXTENDS Integers, Sequences, FiniteSets
 None == -1
 Unobs == -2
 SleeperExc == -3
+BSleepExc == -4
 NonRetry == {"PERMANENT", "AUTH", "PERMISSION"}
 AllClasses == {"AUTH", "PERMISSION", "PERMANENT", "CONCURRENCY", "RATE_LIMIT", "SERVER_ERROR",
                "TRANSIENT", "UNKNOWN"}
@@ -304,7 +305,9 @@ OnBSleep(c, m, ev) ==
           <<~m.bslept /\ ~m.slept,                   "C16:before-sleep-order">>,
           <<ev.sleep = m.applied,                    "C05:before-sleep-delay">>,
           <<~m.abortReq,                             "C13:work-after-abort-request">> >>)
-    IN  [m1 EXCEPT !.bslept = TRUE]
+    IN  [m1 EXCEPT !.bslept = TRUE,
+                   !.cancelOn = ev.fault \in SleepFaults,
+                   !.cancel = IF ev.fault \in SleepFaults THEN BSleepExc ELSE m.cancel]
 
 OnSleep(c, m, ev) ==
     LET total == m.sumSleep + ev.s
@@ -441,6 +444,7 @@ OnDeliver(c, m, ev) ==
 (***************************************************************************)
 OnOther(c, m, ev) ==
     IF ev.e \in {"metric", "log"} THEN V(m, FALSE, "C14:metric-and-log-sinks-differ")
+    ELSE IF ev.e = "decoy" THEN V(m, FALSE, "C16:policy-level-callback-used-despite-call-level-override")
     ELSE m
 
 MonStep(c, m, ev) ==
